@@ -11,8 +11,8 @@
   returns (finding D49, see harness/c08.py).  The soundness theorem of Properties/C08 does not depend on this choice: it holds
   for every candidate inverse that passes the checks the code itself performs.
 
-  The known finding D40 (the Hadamard positions of `_position_finder` leave the X part singular on many valid states) is part of
-  the model: `graphFinder` then fails with `assertion`, as the Python does.
+  `_position_finder` is the pivot scan of the row-echelon X part (the repair of D40, /repo 86ab4f1; before, a staircase walk
+  that assumed a pivot at (0,0) and left the X part singular whenever qubit 0 had no X component).
 
   Sizes: `n ≥ 1` (for `n = 0` the loop of `row_reduction` does not terminate in the Python; the model answers `runtime`).
   No Mathlib.
@@ -86,24 +86,17 @@ def hadamardTransform (m : XZ) (pos : List Nat) : XZ :=
 
 end XZ
 
-/-- the `while` loop of `_position_finder` (every round moves one column to the right; an out-of-range read raises
-    `IndexError`, which the bare `except` turns into `break`) -/
-def posLoop (x : Adj) (n : Nat) : Nat → Nat → Nat → List Nat → List Nat
-  | 0, _, _, pos => pos
-  | fuel + 1, pr, pc, pos =>
-    if pr < n ∧ pc < n then
-      if pr + 1 < n then
-        -- `if x_matrix[pivot[0] + 1, pivot[1]] == 1: pivot = [pivot[0] + 1, pivot[1]]`
-        let pr1 := if x (pr + 1) pc then pr + 1 else pr
-        if pr1 + 1 < n ∧ pc + 1 < n then
-          if x (pr1 + 1) (pc + 1) then posLoop x n fuel (pr1 + 1) (pc + 1) pos
-          else posLoop x n fuel pr1 (pc + 1) (pos ++ [pc + 1])
-        else pos
-      else pos
-    else pos
+/-- one round of the `for column in range(n_column)` loop of `_position_finder`; the state is `(row, pos_list)`:
+    `if row < n_row and x_matrix[row, column] == 1: row += 1` / `else: pos_list.append(column)` -/
+def posStep (x : Adj) (n : Nat) (s : Nat × List Nat) (column : Nat) : Nat × List Nat :=
+  if s.1 < n ∧ x s.1 column = true then (s.1 + 1, s.2) else (s.1, s.2 ++ [column])
 
-/-- `_position_finder(x_matrix)` -/
-def positionFinder (n : Nat) (x : Adj) : List Nat := posLoop x n n 0 0 []
+/-- the loop of `_position_finder` over the columns `0 .. k-1`, from `row = 0`, `pos_list = []` -/
+def posLoop (x : Adj) (n k : Nat) : Nat × List Nat := (List.range k).foldl (posStep x n) (0, [])
+
+/-- `_position_finder(x_matrix)` for an `n × n` matrix (`n_row = n_column = n`): the pivot scan of a row-echelon matrix; the
+    columns without a pivot are returned (the qubits that get a Hadamard) -/
+def positionFinder (n : Nat) (x : Adj) : List Nat := (posLoop x n n).2
 
 /-! ### exact GF(2) inverse (stands for `det · inv % 2` with an odd determinant) -/
 
